@@ -677,4 +677,4 @@ LEVEL_TEXT = (
     "cache state. Exhaustive up to history length 4 (thorough) / 2 (quick) for two products."
 )
 LEVEL_NOTE = "Trusted: the model of which index files a step creates (vf/props/c10.py World.apply); references computed on a pristine copy."
-TECHNIQUE = "Hypothesis RuleBasedStateMachine + bounded exhaustive history enumeration; history invariants vs pristine reference and cache-state model"
+TECHNIQUE = "Hypothesis RuleBasedStateMachine + bounded exhaustive history enumeration; history invariants vs pristine reference and cache-state model; metamorphic path-spelling / foreign-process steps"
